@@ -1,9 +1,26 @@
 package sim
 
 import (
+	"reflect"
+	"unsafe"
+
 	"github.com/foxboron/go-uefi/efivarfs/testfs"
 	"github.com/spf13/afero"
 )
+
+// testfsBacking finds the byte store an opened TestFS composed (it keeps it in an unexported field and removes
+// replaced variables from it directly). nil when the store has no field of type afero.Fs.
+func testfsBacking(t *testfs.TestFS) afero.Fs {
+	v := reflect.ValueOf(t).Elem()
+	fsType := reflect.TypeOf((*afero.Fs)(nil)).Elem()
+	for i := 0; i < v.NumField(); i++ {
+		f := v.Field(i)
+		if f.Type() == fsType && !f.IsNil() {
+			return reflect.NewAt(f.Type(), unsafe.Pointer(f.UnsafeAddr())).Elem().Interface().(afero.Fs)
+		}
+	}
+	return nil
+}
 
 // simTestFS returns the library's in-memory test store with the simulated
 // filesystem underneath. (TestFS.Open() would install a fresh MemMapFs of its
